@@ -559,7 +559,18 @@ func (fs *fileStorage) Rename(oldfd, newfd FileDesc) error {
 	if fs.open < 0 {
 		return ErrClosed
 	}
-	return rename(filepath.Join(fs.path, fsGenName(oldfd)), filepath.Join(fs.path, fsGenName(newfd)))
+	if err := rename(filepath.Join(fs.path, fsGenName(oldfd)), filepath.Join(fs.path, fsGenName(newfd))); err != nil {
+		return err
+	}
+	if fsHasOldName(newfd) {
+		// The file that was replaced may exist under its old name; it must
+		// not survive, or newfd would refer to two files.
+		if err := os.Remove(filepath.Join(fs.path, fsGenOldName(newfd))); err != nil && !os.IsNotExist(err) {
+			fs.log(fmt.Sprintf("rename %s: remove old name: %v", newfd, err))
+			return err
+		}
+	}
+	return nil
 }
 
 func (fs *fileStorage) Close() error {
